@@ -3,6 +3,8 @@
 import json, os, subprocess
 root = os.path.dirname(os.path.abspath(__file__))
 c = json.load(open(os.path.join(root, "checks.json")))
+import glob
+c["properties"] = {os.path.basename(f)[:-5]: json.load(open(f)) for f in glob.glob(os.path.join(root, "checks.d", "*.json"))}
 allprops = [json.loads(l)["id"] for l in open(os.path.join(root, "properties.jsonl"))]
 hook_commits = c.get("hook_commits", [])
 checks = []
@@ -30,7 +32,7 @@ m = {
         "source_commits": hook_commits,
         "add_only": True,
     },
-    "engines": [{"name": k, "path": "props/" + k, "serves_properties": sorted(p for p, s in c["properties"].items() if s["pkg"] == k), "kind_free_text": v.get("kind", "rapid property tests")} for k, v in c["packages"].items()],
+    "engines": [{"name": k, "path": "props/" + k, "serves_properties": sorted(p for p, s in c["properties"].items() if s["pkg"] == k), "kind_free_text": v.get("kind", "rapid property tests")} for k, v in c["packages"].items() if any(s["pkg"] == k for s in c["properties"].values())],
     "checks": checks,
     "notes": c.get("notes", ""),
     "not_applicable": na,
